@@ -770,6 +770,12 @@ func (o Object) MarshalJSON() ([]byte, error) {
 				runtime:      o.object.runtime,
 				ArgumentList: []Value{o.value},
 			})
+			if resultVal.IsUndefined() {
+				// a function, or an object whose toJSON gives undefined, has no
+				// JSON text; null keeps the output valid, as for undefined itself
+				result = []byte("null")
+				return
+			}
 			result = []byte(resultVal.String())
 		})
 		return result, err
